@@ -12,6 +12,9 @@ atom only says "may".  Guard rules therefore additionally require a syntactic co
 from collections import defaultdict
 
 SIZE_METHODS = {"size", "empty", "length"}
+OUTPUT_ITERATOR_RESULT = {"std::copy": "last", "std::copy_n": "last", "std::copy_backward": "last", "std::move": "last",
+                          "std::move_backward": "last", "std::transform": "last", "std::fill_n": "first", "std::copy_if": "last",
+                          "std::partial_sum": "last", "std::adjacent_difference": "last"}
 # non-const members that only hand out a reference / pointer / view: writes through the result are seen at the
 # assignment, the call itself changes nothing
 ACCESS_METHODS = {"operator[]", "operator()", "data", "begin", "end", "at", "front", "back", "operator*", "operator->",
@@ -186,8 +189,13 @@ class Flow:
         if k == "CallExpr":
             # free function returning a pointer/reference into one of its arguments (std::addressof, begin, get ...)
             out = set()
+            qn = (n.callee or {}).get("qn", "")
+            args = n.call_args()
+            if qn in OUTPUT_ITERATOR_RESULT and args:
+                # std::copy & co. return an iterator into their *destination*
+                return self.root(args[-1] if OUTPUT_ITERATOR_RESULT[qn] == "last" else args[0])
             if n.tc == "ptr" or is_alias_type(n.type, n.tc) or n.get("lv"):
-                for a in n.call_args():
+                for a in args:
                     out |= self.root(a)
             return out
         if k in ("CXXConstructExpr", "CXXTemporaryObjectExpr"):
@@ -341,6 +349,11 @@ class Flow:
                         mode = pm[i] if i < len(pm) else "val"
                         if mode in ("ref", "ptr"):
                             targets.append(a)
+                    wq = ce.get("qn", "")
+                    if wq in OUTPUT_ITERATOR_RESULT and args:
+                        targets.append(args[-1] if OUTPUT_ITERATOR_RESULT[wq] == "last" else args[0])
+                    elif wq in ("std::fill", "std::iota", "std::generate", "std::reverse", "std::sort", "std::rotate") and args:
+                        targets.append(args[0])
                     if (obj is not None and "cls" in ce and not ce.get("const") and n.k != "CXXConstructExpr"
                             and (ce.get("qn") or "").rsplit("::", 1)[-1] not in ACCESS_METHODS):
                         targets.append(obj)
@@ -420,7 +433,11 @@ def _lvalue_locals(t, depth=0):
     if k == "CXXMemberCallExpr":
         return _lvalue_locals(t.call_object(), depth + 1)
     if k == "CallExpr":
-        for a in t.call_args():
+        qn = (t.callee or {}).get("qn", "")
+        args = t.call_args()
+        if qn in OUTPUT_ITERATOR_RESULT and args:
+            return _lvalue_locals(args[-1] if OUTPUT_ITERATOR_RESULT[qn] == "last" else args[0], depth + 1)
+        for a in args:
             out += _lvalue_locals(a, depth + 1)
         return out
     if k in ("CXXConstructExpr", "CXXTemporaryObjectExpr") and is_alias_type(t.type, t.tc):
